@@ -105,10 +105,15 @@
 ; go/types facts used by the optimiser's side conditions (abstract)
 (declare-fun objectOf (Ref) Iface)
 (declare-fun TypesIdentical (Iface Iface) Bool)
-(declare-fun TypeResolved (Iface) Bool) ; go/types: the type mentions no invalid (unresolved) type
+(declare-fun TypeResolved (Iface) Bool)
+; D39: evaluating the expression has no effect and runs no user code (abstract; generated by the ghost rules of rewriter.valuesOnly)
+(declare-fun EffFree (Iface) Bool)
+(declare-fun IsTypeExpr (Iface) Bool) ; go/types: the expression denotes a type (a type argument of an instantiation)
+(declare-fun funcName (Ref) Str) (declare-fun funcPkg (Ref) Ref) (declare-fun pkgPath (Ref) Str) ; go/types: the type mentions no invalid (unresolved) type
 ; the callee expression is a method value x.m whose receiver x is evaluated when the expression is (ghost, C07/C13 side condition)
 (declare-fun BindsReceiverEarly (Iface) Bool)
 (declare-fun Addressable (Iface) Bool) ; go/types: the expression denotes an addressable value (mode variable)
+(declare-fun MayFault (Iface) Bool) ; evaluating the expression may panic (it dereferences a pointer or indexes)
 (declare-fun cursorReplace (Ref Iface World) World)
 (declare-fun cursorInsert (Ref Iface World) World)
 ; projections of the two (free) edit constructors, stated by the assumed contracts of Cursor.Replace / Cursor.InsertBefore
